@@ -55,5 +55,8 @@ def run(ctx):
     witnesses(ctx)
     # two targets sharing one root directory (codex project scope + zed in the project root), deploys with and without --target
     ds.run_hist_stream(ctx, 6 if quick else 80, 5, props={'C15'}, weights={'deploy': 1}, stream='shared_root_hist', setup=ds.setup_shared_root)
+    # deploys that each touch one root only, then rollbacks: every file rollback (re)writes must be listed, every file it deletes unlisted
+    ds.run_hist_stream(ctx, 6 if quick else 80, 8, props={'C15'}, weights={'deploy': 1}, stream='two_root_hist',
+                       plan_script=ds.hist_two_roots, setup=ds.setup_two_roots)
     ds.run_hist_stream(ctx, 16 if quick else 250, 6 if quick else 9, props={'C15'},
                        weights={'deploy': 6, 'rollback': 2, 'bootstrap': 2, 'restore': 2}, stream='ledger_hist')
